@@ -29,11 +29,13 @@ import (
 )
 
 var (
-	repoDir  = flag.String("repo", "/repo", "repository root")
-	outDir   = flag.String("out", "", "output directory")
-	hookPath = flag.String("hook", "verif.local/sim/simhook", "import path of the hook package")
-	tags     = flag.String("tags", "verif", "build tags")
-	dense    = flag.String("dense", "", "comma-separated pkgpath:func list: a yield goes before every simple statement of these functions (preemption between plain memory accesses)")
+	repoDir   = flag.String("repo", "/repo", "repository root")
+	outDir    = flag.String("out", "", "output directory")
+	hookPath  = flag.String("hook", "verif.local/sim/simhook", "import path of the hook package")
+	tags      = flag.String("tags", "verif", "build tags")
+	denseAll  = flag.Bool("dense-all", true, "put a MemYieldAll scheduling point before every plain statement of every function (enabled per run by the harness)")
+	denseSkip = flag.String("dense-skip", "proc/redis/codec.go,proc/redis/bufio.go,proc/internal/hc/atcp/conn.go", "files (path suffixes) left without MemYieldAll points: per-connection private byte loops")
+	dense     = flag.String("dense", "", "comma-separated pkgpath:func list: a yield goes before every simple statement of these functions (preemption between plain memory accesses)")
 )
 
 type rw struct {
@@ -361,6 +363,113 @@ func (r *rw) isDense() bool {
 
 func (r *rw) memYield() ast.Stmt { return &ast.ExprStmt{X: hook("MemYield", r.site("mem"))} }
 
+// anyYield: the scheduling point put before a plain statement. Functions of the -dense list get MemYield (on whenever
+// the profile says so), every other function gets MemYieldAll (on only in runs drawn as "dense": preemption between
+// plain memory accesses anywhere in the code under test).
+func (r *rw) anyYield() ast.Stmt {
+	if r.isDense() {
+		return r.memYield()
+	}
+	if !*denseAll {
+		return nil
+	}
+	for _, suf := range strings.Split(*denseSkip, ",") {
+		if suf != "" && strings.HasSuffix(r.file, suf) {
+			return nil
+		}
+	}
+	return &ast.ExprStmt{X: hook("MemYieldAll", r.site("mem"))}
+}
+
+func simpleOperand(e ast.Expr) bool {
+	switch v := e.(type) {
+	case *ast.Ident, *ast.BasicLit:
+		return true
+	case *ast.SelectorExpr:
+		return simpleOperand(v.X)
+	case *ast.ParenExpr:
+		return simpleOperand(v.X)
+	case *ast.StarExpr:
+		return simpleOperand(v.X)
+	}
+	return false
+}
+
+// sharedPlace: an assignable place that may be shared between goroutines and whose evaluation has no side effect.
+func sharedPlace(e ast.Expr) bool {
+	switch v := e.(type) {
+	case *ast.SelectorExpr:
+		return simpleOperand(v.X)
+	case *ast.StarExpr:
+		return simpleOperand(v.X)
+	case *ast.IndexExpr:
+		return simpleOperand(v.X) && simpleOperand(v.Index)
+	}
+	return false
+}
+
+var opOf = map[token.Token]token.Token{
+	token.ADD_ASSIGN: token.ADD, token.SUB_ASSIGN: token.SUB, token.MUL_ASSIGN: token.MUL, token.QUO_ASSIGN: token.QUO,
+	token.REM_ASSIGN: token.REM, token.AND_ASSIGN: token.AND, token.OR_ASSIGN: token.OR, token.XOR_ASSIGN: token.XOR,
+	token.SHL_ASSIGN: token.SHL, token.SHR_ASSIGN: token.SHR, token.AND_NOT_ASSIGN: token.AND_NOT,
+}
+
+// splitRMW rewrites "place op= x" / "place++" into load, scheduling point, store: a read-modify-write of plain memory
+// is not atomic, and another goroutine may run between the load and the store.
+func (r *rw) splitRMW(s ast.Stmt) []ast.Stmt {
+	y := r.anyYield()
+	if y == nil {
+		return nil
+	}
+	var place, rhs ast.Expr
+	var op token.Token
+	switch v := s.(type) {
+	case *ast.AssignStmt:
+		o, ok := opOf[v.Tok]
+		if !ok || len(v.Lhs) != 1 || len(v.Rhs) != 1 || !sharedPlace(v.Lhs[0]) {
+			return nil
+		}
+		if t := r.info.TypeOf(v.Lhs[0]); t != nil {
+			if _, isMap := r.info.TypeOf(v.Lhs[0]).Underlying().(*types.Map); isMap {
+				return nil
+			}
+		}
+		if ix, ok := v.Lhs[0].(*ast.IndexExpr); ok {
+			if t := r.info.TypeOf(ix.X); t != nil {
+				if _, isMap := t.Underlying().(*types.Map); isMap {
+					return nil // m[k] op= x: a concurrent map access is a fatal error of its own kind, leave it alone
+				}
+			}
+		}
+		place, rhs, op = v.Lhs[0], &ast.ParenExpr{X: v.Rhs[0]}, o
+	case *ast.IncDecStmt:
+		if !sharedPlace(v.X) {
+			return nil
+		}
+		if ix, ok := v.X.(*ast.IndexExpr); ok {
+			if t := r.info.TypeOf(ix.X); t != nil {
+				if _, isMap := t.Underlying().(*types.Map); isMap {
+					return nil
+				}
+			}
+		}
+		place, rhs, op = v.X, &ast.BasicLit{Kind: token.INT, Value: "1"}, token.ADD
+		if v.Tok == token.DEC {
+			op = token.SUB
+		}
+	default:
+		return nil
+	}
+	r.stats["rmw-split"]++
+	tmp := ast.NewIdent("__rmw")
+	load := &ast.AssignStmt{Lhs: []ast.Expr{tmp}, Tok: token.DEFINE, Rhs: []ast.Expr{place}}
+	store := &ast.AssignStmt{Lhs: []ast.Expr{place}, Tok: token.ASSIGN, Rhs: []ast.Expr{&ast.BinaryExpr{X: tmp, Op: op, Y: rhs}}}
+	return []ast.Stmt{y, &ast.BlockStmt{List: []ast.Stmt{load, r.anyYieldAgain(), store}}}
+}
+
+// anyYieldAgain: a second scheduling point of the same kind (own site id).
+func (r *rw) anyYieldAgain() ast.Stmt { return r.anyYield() }
+
 func (r *rw) yield() ast.Stmt { return &ast.ExprStmt{X: hook("Yield", r.site("op"))} }
 
 func (r *rw) stmt(s ast.Stmt) []ast.Stmt {
@@ -505,8 +614,8 @@ func (r *rw) stmt(s ast.Stmt) []ast.Stmt {
 		if r.hasSync(v) {
 			return []ast.Stmt{r.yield(), v}
 		}
-		if r.isDense() {
-			return []ast.Stmt{r.memYield(), v}
+		if y := r.anyYield(); y != nil {
+			return []ast.Stmt{y, v}
 		}
 		return []ast.Stmt{v}
 	default:
@@ -517,8 +626,11 @@ func (r *rw) stmt(s ast.Stmt) []ast.Stmt {
 		}
 		switch s.(type) {
 		case *ast.AssignStmt, *ast.IncDecStmt:
-			if r.isDense() {
-				return []ast.Stmt{r.memYield(), s}
+			if sp := r.splitRMW(s); sp != nil {
+				return sp
+			}
+			if y := r.anyYield(); y != nil {
+				return []ast.Stmt{y, s}
 			}
 		}
 		return []ast.Stmt{s}
